@@ -112,7 +112,9 @@ func runC45(c *eng.Ctx) {
 	}
 	c.Check("R1", "insert-keeps-index-and-list-in-step", push.Pos(), okPush, "a new entry {key, value} is pushed to the front and index[key] is set to that very element")
 	// list removal + index deletion
-	okRem := lrem.Parent() == fns["removeElement"] && del.Block() == lrem.Block() && eng.InstrIndex(lrem) < eng.InstrIndex(del) &&
+	// (the two steps are independent — container/list keeps the removed element's
+	// Value — so either order within the one block is the same removal)
+	okRem := lrem.Parent() == fns["removeElement"] && del.Block() == lrem.Block() &&
 		eng.Render(lrem.Call.Args[1]) == "p1" && isField(del.Call.Args[0], "index") &&
 		strings.HasPrefix(eng.Render(del.Call.Args[1]), "assert(p1.Value,") && strings.HasSuffix(eng.Render(del.Call.Args[1]), ".key")
 	c.Check("R1", "removal-keeps-index-and-list-in-step", lrem.Pos(), okRem && len(eng.Guards(lrem)) == 0 && len(eng.Guards(del)) == 0, "removing an element from the list also deletes index[element.key], unconditionally")
@@ -268,7 +270,21 @@ func runC45(c *eng.Ctx) {
 					callers[n] = true
 					if n == "Remove" {
 						g := eng.Guards(ci)
-						c.Check("R4", "Remove/removes-looked-up-element", ci.Pos(), len(g) == 1 && g[0].Pos && g[0].Expr == "lookupok(p0.index,p1)#1" && eng.Render(ci.Common().Args[1]) == "lookupok(p0.index,p1)#0", "Remove removes exactly the element the index holds for the key, when there is one", atomsShort(g))
+						// the hit test, plus at most the two defensive tests that can only
+						// be false when there is nothing to remove (an empty index holds no
+						// key; the index never holds a nil element)
+						hit, other := false, false
+						for _, a := range g {
+							switch {
+							case a.Pos && a.Expr == "lookupok(p0.index,p1)#1":
+								hit = true
+							case !a.Pos && a.Expr == "(len(p0.index) == 0)":
+							case !a.Pos && a.Expr == "(lookupok(p0.index,p1)#0 == nil)":
+							default:
+								other = true
+							}
+						}
+						c.Check("R4", "Remove/removes-looked-up-element", ci.Pos(), hit && !other && eng.Render(ci.Common().Args[1]) == "lookupok(p0.index,p1)#0", "Remove removes exactly the element the index holds for the key, when there is one", atomsShort(g))
 					}
 				}
 			}
